@@ -61,6 +61,24 @@ Section VP.
   Qed.
 End VP.
 
+(** subducting velocity table (mass conserving): the evaluator (utilities.cc:1366-1375) switches to [ridge][point] indexing
+    as soon as the first row has more than one entry; an accepted table then has exactly the shape of the ridge coordinates,
+    so row r exists for every ridge r and has an entry for every ridge point *)
+Lemma nat_list_eqb_eq a : forall b, nat_list_eqb a b = true -> a = b.
+Proof.
+  induction a as [|x a IH]; intros [|y b] H; cbn [nat_list_eqb] in H; try discriminate; [reflexivity|].
+  apply andb_prop in H. destruct H as [H1 H2]. apply Nat.eqb_eq in H1. subst y. f_equal. apply IH. exact H2.
+Qed.
+
+Theorem subducting_table_shape ridges rows :
+  sig_ok (SigSubducting ridges rows) = true -> 1 < hd 0 rows -> ridges <> [] ->
+  rows = ridges /\ forall r i, r < length ridges -> i < nth r ridges 0 -> i < nth r rows 0.
+Proof.
+  cbn [sig_ok]. intros H H1 Hr. destruct (Nat.ltb_spec 1 (hd 0 rows)) as [_|]; [|lia].
+  destruct ridges as [|a ridges]; [contradiction|]. apply nat_list_eqb_eq in H. subst rows. split; [reflexivity|].
+  intros r i _ Hi. exact Hi.
+Qed.
+
 (** spreading velocities: every index the constructor's loop reads lies inside the list *)
 Lemma group_reads_bound ridges : forall single idx i, In i (group_reads ridges single idx) ->
   if single then i = 0 else idx <= i < idx + sum_list ridges.
